@@ -230,6 +230,44 @@ func (d *doublewell) eval(x []float64) (float64, []float64, [][]float64) {
 	return f, g, h
 }
 
+/* waves: f(x) = sum_i w_i cos(a_i x_i + d_i) + q/2 |x|^2 -- along a ray the slope grows and
+ * shrinks and changes sign, which is what the bracketing phase of a line search has to cope with */
+
+type waves struct {
+	w, a, d []float64
+	q       float64
+}
+
+func (v *waves) name() string       { return fmt.Sprintf("waves(n=%d)", len(v.w)) }
+func (v *waves) dim() int           { return len(v.w) }
+func (v *waves) optimum() []float64 { return nil }
+func (v *waves) lambdaMin() float64 { return 0 }
+func (v *waves) eval(x []float64) (float64, []float64, [][]float64) {
+	n := len(v.w)
+	g := make([]float64, n)
+	h := make([][]float64, n)
+	f := 0.0
+	for i := 0; i < n; i++ {
+		u := v.a[i]*x[i] + v.d[i]
+		f += v.w[i]*math.Cos(u) + 0.5*v.q*x[i]*x[i]
+		g[i] = -v.w[i]*v.a[i]*math.Sin(u) + v.q*x[i]
+		h[i] = make([]float64, n)
+		h[i][i] = -v.w[i]*v.a[i]*v.a[i]*math.Cos(u) + v.q
+	}
+	return f, g, h
+}
+
+func genWaves(t *core.Tape) family {
+	n := t.Range(1, 2)
+	v := &waves{w: make([]float64, n), a: make([]float64, n), d: make([]float64, n), q: []float64{0, 0, 0.05, 0.25}[t.Choose(4)]}
+	for i := 0; i < n; i++ {
+		v.w[i] = float64(t.Range(1, 8)) / 2
+		v.a[i] = float64(t.Range(1, 8)) / 2
+		v.d[i] = float64(t.Range(-6, 6)) / 4
+	}
+	return v
+}
+
 func genFamily(t *core.Tape) family {
 	switch t.Pick([]int{5, 3, 2, 2, 2}) {
 	case 4:
